@@ -708,6 +708,34 @@ def pairwise_cases(rng, pool: list[Msg], how_many: int) -> list[dict]:
     return cases
 
 
+def flag_order_cases(quick: bool) -> list[dict]:
+    """The same attribute with one flag bit the other way round (Partial on a well-known attribute, Optional or
+    Transitive flipped, Extended Length on a short value), BEFORE and AFTER the UPDATE that carries it as the RFC says,
+    on one session and on two: what a process decides about one occurrence of an attribute code must not be what it
+    decides about the next one (whatever it remembers per code, per flags, per class)."""
+    base = ['origin-igp', 'aspath-f8', 'nexthop']
+    names = ['origin-igp', 'aspath-f8', 'nexthop', 'lp-100', 'atomic', 'med-1', 'community'] if quick else ['origin-igp', 'aspath-f8', 'nexthop', 'lp-100', 'atomic', 'med-1', 'community', 'aggregator-4', 'extcomm', 'large', 'originator', 'cluster']
+    bits = [0x20] if quick else [0x20, 0x80, 0x40, 0x10]
+    out = []
+    for nm in names:
+        t = R.ATTRS[nm]
+        flag, code = t[0], t[1]
+        val = t[4:] if flag & 0x10 else t[3:]
+        full = [x for x in base if R.ATTRS[x][1] != code] + [nm]
+        order = sorted(full, key=lambda x: (R.ATTRS[x][1], x))
+        normal = R.update_body(b'', R.block(order), R.NLRIS['10/24'])
+        for bit in bits:
+            f2 = flag ^ bit
+            t2 = (bytes([f2, code]) + len(val).to_bytes(2, 'big') + val) if f2 & 0x10 else (bytes([f2, code, len(val)]) + val)
+            blk = b''.join(t2 if x == nm else R.ATTRS[x] for x in order)
+            variant = R.update_body(b'', blk, R.NLRIS['10/24'])
+            V = {'t': 2, 'body': variant.hex()}
+            N = {'t': 2, 'body': normal.hex()}
+            for steps in ([dict(V, s=0), dict(N, s=0), dict(N, s=1)], [dict(N, s=0), dict(V, s=0), dict(N, s=0), dict(V, s=1), dict(N, s=1)]):
+                out.append({'specs': [R.SPECS[0], R.SPECS[7]], 'steps': steps, 'origin': 'flag-order'})
+    return out
+
+
 def load_corpus() -> list[dict]:
     d = common.VERIF / 'corpus' / PROP
     return [dict(json.loads(f.read_text()), file=f.name) for f in sorted(d.glob('*.json'))] if d.exists() else []
@@ -778,12 +806,13 @@ def _run(ctx: Ctx, rng, quick: bool, wpool: 'R.Pool') -> None:
                 st['ord'] = rng.randrange(1, 1000)
         cases.append({'specs': R.SPECS, 'steps': steps, 'origin': 'random'})
     cases += pairwise_cases(rng, mpool, int(os.environ.get('VERIF_C19_PAIRWISE', '8' if quick else '200')))
-    for c in cases:  # corpus and the pairwise walks first, each with the fresh twins of its steps
-        if c['origin'] in ('corpus', 'pairwise'):
+    cases += flag_order_cases(quick)
+    for c in cases:  # corpus, the pairwise walks and the flag orders first, each with the fresh twins of its steps
+        if c['origin'] in ('corpus', 'pairwise', 'flag-order'):
             c['id'] = run.submit(c['specs'], c['steps'])
             run.ensure_twins(c['specs'], c['steps'])
     for c in cases:
-        if c['origin'] not in ('corpus', 'pairwise'):
+        if c['origin'] not in ('corpus', 'pairwise', 'flag-order'):
             c['id'] = run.submit(c['specs'], c['steps'])
     ctx.count('jobs:submitted', run.next_id)
     timing = {'generate_s': round(time.time() - t_start, 1)}
